@@ -778,10 +778,17 @@ class C09(L1Prop):
             ops, g = rand_prefix(rng, rng.randint(10, length), nc, True, False, True)
             out.append(Case(f"c09-{k}", ops, {"nclients": nc}))
         out += foreign_chain_cases("c09", rng, sizes(tier, 10, 100), [])
+        # uploads of different clients interleaved chunk by chunk on one worker: nobody's bytes end up
+        # under another client id
+        from .props_http import interleaved_upload_cases
+        out += interleaved_upload_cases("c09", rng, sizes(tier, 12, 100))
         return out
     def relevant(self, i, trace):
         # a divergence on a request that quotes an id stored for another client
         o, ri, rm = trace[i]
+        if o.startswith("http "):
+            from .props_http import C06
+            return C06().relevant(i, trace)
         op = Op(o)
         if op.kind not in ("av", "gcv", "as"):
             return False
@@ -792,8 +799,15 @@ class C09(L1Prop):
             if op2.kind == "av" and resp_kind(r2) == "added":
                 owner[added_id(r2)] = op2.c
         return arg in owner and owner[arg] != op.c
+    def oracle(self, case, trace, backend):
+        if case.meta.get("http"):
+            from .props_http import C06
+            return [m + " (uploads of several clients interleaved on one worker)" for m in C06().oracle(case, trace, backend)]
+        return []
     def derive(self, case, trace, backend):
         """one solo case per client: its own requests, foreign ids replaced by arbitrary fixed ids"""
+        if case.meta.get("http"):
+            return []
         out = []
         clients = sorted({Op(o).c for o, _, _ in trace if Op(o).kind in ("av", "gcv", "as", "gs", "ensure", "backdate", "setcounter")})
         for c in clients:
